@@ -368,4 +368,5 @@ func runC03(r *run) {
 	flakyNeighbour(r.violate)
 	customErrorDevices(r.violate)
 	lateErrorDeviceLevels(r.violate)
+	discardPlusLevelWriter(r.violate)
 }
